@@ -182,6 +182,13 @@ class FCap:
 
 @st.composite
 def cases(draw):
+    c = draw(_cases())
+    c["echo0"] = draw(st.sampled_from([True, True, False]))  # input echo of the terminal before the call
+    return c
+
+
+@st.composite
+def _cases(draw):
     api = draw(st.sampled_from(["new", "old", "old"]))
     if api == "new":
         kind = draw(st.sampled_from(["still", "grid", "grid", "stream"]))
@@ -377,12 +384,18 @@ def judge(run: Run, c, what, outcome, ename, attrs_before, ev_kind, started=True
 
 
 def check_config(c, rec):
+    orig = termios.tcgetattr(PTY_SLAVE)
     attrs0 = termios.tcgetattr(PTY_SLAVE)
+    if c.get("echo0") is False:
+        attrs0[3] &= ~termios.ECHO  # e.g. a full-screen application / getpass() is running
+        termios.tcsetattr(PTY_SLAVE, termios.TCSANOW, attrs0)
+        attrs0 = termios.tcgetattr(PTY_SLAVE)
+        rec.label("echo_off_before")
     try:
         _check(c, rec, attrs0)
     finally:
         F.reset()
-        termios.tcsetattr(PTY_SLAVE, termios.TCSANOW, attrs0)
+        termios.tcsetattr(PTY_SLAVE, termios.TCSANOW, orig)
 
 
 def describe(c):
@@ -407,6 +420,10 @@ def _check(c, rec, attrs0):
     events = list(F.events)
     judge_clean = run
     F.enabled = False
+    if c["tty"] and termios.tcgetattr(PTY_SLAVE) != attrs0:
+        now = termios.tcgetattr(PTY_SLAVE)
+        raise Violation(f"{base}: a draw that completed changed the terminal attributes (lflag {attrs0[3]:#x} -> {now[3]:#x}; "
+                        f"input echo before the call: {'on' if attrs0[3] & termios.ECHO else 'off'})", {"clause": "termios_clean"})
     from ..vt import Screen
 
     scr = Screen(60, 40, profile=env.model_profile())
